@@ -122,8 +122,11 @@ def encFull (c : Full) : SExp :=
 def unloadedNames {α} (l : List (String × Option α)) : List SExp :=
   l.filterMap fun p => if p.2.isNone then some (.str p.1) else none
 
-def encLazy (m : Mem) : SExp :=
-  .list [ofList (fun (l : MLayer) => .list [.str l.name, setOf (unloadedNames l.glyphs)]) m.layers,
+/-- what is still not loaded; `det` selects the layers whose state the last save determined (which
+glyphs of the other layers are loaded depends on what was read before: loading a composite glyph
+loads its bases, and is not compared) -/
+def encLazy (m : Mem) (det : MLayer → Bool) : SExp :=
+  .list [ofList (fun (l : MLayer) => .list [.str l.name, setOf (unloadedNames l.glyphs)]) (m.layers.filter det),
          setOf (unloadedNames m.images), setOf (unloadedNames m.data)]
 
 /-! ### operations -/
@@ -235,7 +238,10 @@ def driverStep (s : DState) (line : SExp) : DState × SExp :=
       | some t, some ip =>
         match save featureHeader m t ip with
         | none => (s, err "save")
-        | some m' => ({ mem := some m' }, tagged "ok" [ofOpt encDisk m'.bound, encLazy m'])
+        | some m' =>
+          let saveAs := !ip || m.fmt ≠ some t
+          let det (l : MLayer) : Bool := if t.below3 then !(l.name = m.defaultName && !saveAs) else saveAs
+          ({ mem := some m' }, tagged "ok" [ofOpt encDisk m'.bound, encLazy m' det])
       | _, _ => (s, .atom "bad-op")
   | .list [.atom "reopen", maps] =>
     withMem s fun m =>
@@ -252,7 +258,7 @@ def driverStep (s : DState) (line : SExp) : DState × SExp :=
       match observe m with
       | none => (s, err "observe")
       | some c => ({ mem := some (fullyLoaded m c) }, tagged "ok" [encFull c])
-  | .list [.atom "lazy"] => withMem s fun m => (s, encLazy m)
+  | .list [.atom "lazy"] => withMem s fun m => (s, encLazy m (fun _ => true))
   | .list [.atom "noop"] => (s, .atom "ok")
   | _ => (s, .atom "bad-op")
 
